@@ -1,6 +1,7 @@
 package manifest
 
 import (
+	"bytes"
 	"cmp"
 	"crypto/elliptic"
 	"encoding/json"
@@ -175,6 +176,16 @@ func (p *Permission) UnmarshalJSON(data []byte) error {
 	aux := new(permissionAux)
 	if err := json.Unmarshal(data, aux); err != nil {
 		return err
+	}
+	// A missing (or null) list of methods is not a wildcard, "*" is.
+	var raw struct {
+		Methods json.RawMessage `json:"methods"`
+	}
+	if err := json.Unmarshal(data, &raw); err != nil {
+		return err
+	}
+	if len(raw.Methods) == 0 || bytes.Equal(raw.Methods, []byte("null")) {
+		return errors.New("permission has no methods")
 	}
 	p.Contract = aux.Contract
 	p.Methods = aux.Methods
